@@ -354,6 +354,67 @@ func dleqCase(t *rapid.T, si suiteInfo) {
 			return
 		}
 	}
+
+	// ---- false statements built from the identity: B_j = identity, kB_j = X ≠ identity, at
+	// every position j (k·identity = identity ≠ X for every k, so the statement is false, not
+	// a matter of convention). Candidate proofs: the honest proof of the statement with X
+	// replaced by the identity, the honest proof of the batch without that pair, the honest
+	// proof of the original statement, zeros. Oracle: never true.
+	isub := "dleq-false-identity/" + si.name
+	proveBytes := func(B, kB []group.Element) []byte {
+		var out []byte
+		vlib.Catch(func() {
+			pr, err := pv.ProveBatchWithRandomness(k1, st.A, st.kA, B, kB, rr)
+			if err == nil {
+				out, _ = pr.MarshalBinary()
+			}
+		})
+		return out
+	}
+	for j := 0; j < m; j++ {
+		var X group.Element
+		how := rapid.SampledFrom([]string{"random", "generator", "kB_j", "kA"}).Draw(t, fmt.Sprintf("idX%d", j))
+		switch how {
+		case "random":
+			X = si.drawElement(t, fmt.Sprintf("idXe%d", j))
+		case "generator":
+			X = g.Generator()
+		case "kB_j":
+			X = st.kB[j].Copy()
+		case "kA":
+			X = st.kA.Copy()
+		}
+		if X.IsIdentity() {
+			vlib.Class(isub, "skipped: X = identity (k = 0)")
+			continue
+		}
+		is := st.clone()
+		is.B[j] = g.Identity()
+		is.kB[j] = X
+		vlib.Class(isub, fmt.Sprintf("batch=%d", m))
+		idesc := fmt.Sprintf("FALSE STATEMENT B[%d]=identity, kB[%d]=%x (%s): %s", j, j, ser(X), how, is)
+		tB, tkB := copyElems(is.B), copyElems(is.kB)
+		tkB[j] = g.Identity()
+		ics := []cand{
+			{"proof-of-the-statement-with-X-replaced-by-identity", proveBytes(tB, tkB)},
+			{"proof-of-the-batch-without-that-pair", proveBytes(append(copyElems(is.B[:j]), is.B[j+1:]...), append(copyElems(is.kB[:j]), is.kB[j+1:]...))},
+			{"prover-run-on-the-false-statement", proveBytes(is.B, is.kB)},
+			{"proof-of-the-original-statement", pb},
+			{"degenerate:c=0,s=0", make([]byte, 2*L)},
+		}
+		for ci, c := range ics {
+			if ci >= 3 && !vlib.Thorough() {
+				break // the last two candidates run in the thorough tier only
+			}
+			if c.pb == nil {
+				vlib.Class(isub, "prover-refused:"+c.cls)
+				continue
+			}
+			if !expectFalse(isub, c.cls, idesc+" PROOF "+c.cls, par, is, c.pb, &ref) {
+				return
+			}
+		}
+	}
 }
 
 func TestC16DLEQ(t *testing.T) {
@@ -361,7 +422,7 @@ func TestC16DLEQ(t *testing.T) {
 	for _, si := range allSuites {
 		si := si
 		t.Run(si.name, func(t *testing.T) {
-			vlib.Check(t, si.cases([4]int{120, 120, 24, 11}, 4), func(t *rapid.T) { dleqCase(t, si) })
+			vlib.Check(t, si.cases([4]int{100, 100, 20, 9}, 4), func(t *rapid.T) { dleqCase(t, si) })
 		})
 	}
 }
@@ -380,7 +441,8 @@ func dlCase(t *rapid.T, si suiteInfo) {
 	kG := g.NewElement().Mul(G, k)
 	uid := vlib.Bytes(t, 0, 24, "uid")
 	oi := vlib.Bytes(t, 0, 24, "other")
-	rd := vlib.DrawReader(t, "rnd")
+	rdSeed := rapid.Uint64().Draw(t, "rnd.rdseed")
+	rd := vlib.NewReader(rdSeed)
 	desc := fmt.Sprintf("group=%s G=%x k=%x kG=%x userID=%x otherInfo=%x", si.name, ser(G), serS(k), ser(kG), uid, oi)
 	var pr dl.Proof
 	if pn, st := vlib.Catch(func() { pr = dl.Prove(g, G, kG, k, uid, oi, rd) }); pn != nil {
@@ -536,6 +598,63 @@ func dlCase(t *rapid.T, si suiteInfo) {
 			return
 		}
 	}
+	// ---- re-solving the verification equation V = R·G + c·A for ONE transcript element while
+	// the challenge c of the honest proof is kept: such a proof verifies exactly when that
+	// element is not bound by the challenge. c is recovered black-box: the prover's nonce v is
+	// re-drawn from the same deterministic reader (checked: v·G = V), then c = (v − R)/k
+	// (checked: R·G + c·A = V). If the recovery does not check out the candidates are skipped
+	// (the white-box overlay in zk/dl builds them with the package's own challenge function).
+	rsub := "dl-resolve/" + si.name
+	recovered := false
+	var cS group.Scalar
+	if pnv, _ := vlib.Catch(func() {
+		v := g.RandomNonZeroScalar(vlib.NewReader(rdSeed))
+		if g.NewElement().Mul(G, v).IsEqual(pr.V) {
+			cS = g.NewScalar().Mul(g.NewScalar().Sub(v, pr.R), g.NewScalar().Inv(k))
+			chk := g.NewElement().Add(g.NewElement().Mul(G, pr.R), g.NewElement().Mul(kG, cS))
+			recovered = chk.IsEqual(pr.V) && !cS.IsZero()
+		}
+	}); pnv != nil {
+		recovered = false
+	}
+	if recovered {
+		vlib.Class(rsub, "challenge-recovered-from-honest-proof")
+		rp, _ := si.drawScalar(t, true, "rsR")
+		dl2, _ := si.drawScalar(t, true, "rsD")
+		cInv := g.NewScalar().Inv(cS)
+		// A' = c^-1·(V − R'·G): statement element chosen after the challenge
+		a1 := g.NewElement().Mul(g.NewElement().Add(pr.V, g.NewElement().Neg(g.NewElement().Mul(G, rp))), cInv)
+		// A' = A + δ·G with R' = R − c·δ
+		a2 := g.NewElement().Add(kG, g.NewElement().Mul(G, dl2))
+		r2 := g.NewScalar().Sub(pr.R, g.NewScalar().Mul(cS, dl2))
+		// G' = R'^-1·(V − c·A)
+		g3 := g.NewElement().Mul(g.NewElement().Add(pr.V, g.NewElement().Neg(g.NewElement().Mul(kG, cS))), g.NewScalar().Inv(rp))
+		type rc struct {
+			cls    string
+			G2, A2 group.Element
+			p      dl.Proof
+		}
+		for _, c := range []rc{
+			{"resolve-A:A'=(V-R'G)/c", G, a1, dl.Proof{V: pr.V.Copy(), R: rp}},
+			{"resolve-A:A'=A+dG,R'=R-cd", G, a2, dl.Proof{V: pr.V.Copy(), R: r2}},
+			{"resolve-G:G'=(V-cA)/R'", g3, kG, dl.Proof{V: pr.V.Copy(), R: rp}},
+		} {
+			if c.A2.IsEqual(kG) && c.G2.IsEqual(G) {
+				vlib.Class(rsub, "alteration-was-identity")
+				continue
+			}
+			if c.A2.IsIdentity() || c.G2.IsIdentity() {
+				vlib.Class(rsub, "skipped: degenerate solution")
+				continue
+			}
+			if !expectFalse(rsub, c.cls, "RE-SOLVED "+c.cls, c.G2, c.A2, c.p, uid, oi) {
+				return
+			}
+		}
+	} else {
+		vlib.Class(rsub, "challenge-not-recovered (candidates skipped)")
+	}
+
 	// proofs assembled from public / degenerate values only (no witness): a Schnorr proof of
 	// knowledge for (G, kG) with G, kG ≠ identity must not verify
 	if kG.IsIdentity() || G.IsIdentity() {
